@@ -8,7 +8,7 @@ from datetime import date, timedelta
 from typing import Any, Dict, List, Optional, Tuple
 
 from rpv.checks.inproc_util import candidate_days, clean_cut
-from rpv.cli_core import cli_histories, cli_profile, generator_crash, method_choice
+from rpv.cli_core import LONG_ASSET, add_dust_account, cli_histories, cli_profile, generator_crash, method_choice, rename_asset
 from rpv.drive_cli import COUNTRY_LANGUAGES, Workspace
 from rpv.expected import Expected
 from rpv.gen import assign_rows, parse_ts
@@ -28,6 +28,13 @@ def make_case(rng: random.Random, hostile_rows: bool = False) -> Dict[str, Any]:
         mixed_tz=rng.random() < 0.35,
     )
     hists = cli_histories(rng, n_assets, profile)
+    shape = rng.random()
+    if shape < 0.1:
+        # an account left with a non-zero balance below 1e-10 (cli_histories itself does this now and then as well)
+        add_dust_account(rng, hists[rng.choice(sorted(hists))])
+    elif shape < 0.2 and LONG_ASSET not in hists:
+        # an asset whose name is long (sheet names "<asset> In-Out" / "<asset> Tax" exceed 31 characters)
+        hists = rename_asset(hists, sorted(hists)[-1], LONG_ASSET)
     country = rng.choice(("us", "us", "generic", "es", "ie", "jp"))
     language = rng.choice(COUNTRY_LANGUAGES[country])
     args, ini_methods, sched, _ = method_choice(rng, country, hists)
